@@ -1,3 +1,303 @@
-//! placeholder, filled in below
+//! C19: the same octets read by the established codec and by the new API
+//! (`domain::new`), item by item and as a whole message, in the shape of
+//! spec/Wire.tla `CodecView`.
+use crate::wire::*;
+use domain::base::name::ParsedName;
+use domain::base::{Message, ParsedRecord, Question};
+use domain::new::base::name::{NameBuf, RevNameBuf};
+use domain::new::base::parse::{MessageParser, SplitMessageBytes};
+use domain::new::base::wire::AsBytes;
+use domain::new::base::{MessageItem, UnparsedRecordData};
+use domain::new::rdata::RecordData;
+use domain::rdata::AllRecordData;
+use octseq::Parser;
 use serde_json::{json, Value};
-pub fn codec_view(_m: &[u8], _starts: &[usize]) -> Value { json!({}) }
+use verif_harness::common::*;
+
+fn fail() -> Value {
+    json!({"ok": false, "und": false, "item": [], "next": 0})
+}
+fn und() -> Value {
+    json!({"ok": false, "und": true, "item": [], "next": 0})
+}
+fn okv(item: Value, next: usize) -> Value {
+    json!({"ok": true, "und": false, "item": item, "next": next})
+}
+fn kind(t: u16) -> &'static str {
+    match t {
+        2 | 5 | 12 | 15 | 6 => "names",
+        41 => "opt",
+        1 | 28 => "fixed",
+        65280..=65534 => "raw",
+        _ => "opaque",
+    }
+}
+
+//------------ established codec ---------------------------------------------------
+
+fn old_parser<'a>(m: &'a &'a [u8], start: usize) -> Option<Parser<'a, &'a [u8]>> {
+    let mut p = Parser::from_ref(m);
+    p.advance(start).ok()?;
+    Some(p)
+}
+
+fn old_record_item(rec: &ParsedRecord<'_, &[u8]>) -> Result<Option<Value>, ()> {
+    let t = rec.rtype().to_int();
+    if kind(t) == "opaque" {
+        let _ = rec.to_any_record::<AllRecordData<_, ParsedName<_>>>().is_ok();
+        return Ok(None);
+    }
+    let rd = old_rd(rec);
+    if rd["ok"] != json!(true) {
+        return Err(());
+    }
+    let ttl = rec.ttl().as_secs();
+    Ok(Some(json!([labels_json(rec.owner().iter()), t, rec.class().to_int(), (ttl >> 16) as u16,
+                   (ttl & 0xFFFF) as u16, rd["names"], rd["opts"]])))
+}
+
+pub fn old_view(m: &[u8], starts: &[usize]) -> Value {
+    let mref: &[u8] = m;
+    let mut names = vec![];
+    let mut qs = vec![];
+    let mut rs = vec![];
+    for &s in starts {
+        names.push(match old_parser(&mref, s) {
+            Some(mut p) => match ParsedName::parse(&mut p) {
+                Ok(n) => okv(json!([use_name(&n)]), p.pos()),
+                Err(_) => fail(),
+            },
+            None => fail(),
+        });
+        qs.push(match old_parser(&mref, s) {
+            Some(mut p) => match Question::parse(&mut p) {
+                Ok(q) => okv(json!([use_name(q.qname()), q.qtype().to_int(), q.qclass().to_int()]), p.pos()),
+                Err(_) => fail(),
+            },
+            None => fail(),
+        });
+        rs.push(match old_parser(&mref, s) {
+            Some(mut p) => match ParsedRecord::parse(&mut p) {
+                Ok(rec) => match old_record_item(&rec) {
+                    Ok(Some(item)) => okv(item, p.pos()),
+                    Ok(None) => und(),
+                    Err(()) => fail(),
+                },
+                Err(_) => fail(),
+            },
+            None => fail(),
+        });
+    }
+    json!({"names": names, "qs": qs, "rs": rs, "msg": old_msg_view(m)})
+}
+
+/// the new API's flattened view, computed with the established iterators
+fn old_msg_view(m: &[u8]) -> Value {
+    let msg = match Message::from_octets(m) {
+        Ok(x) => x,
+        Err(_) => return json!({"items": [], "end": "short"}),
+    };
+    let mut items = vec![];
+    let mut q = msg.question();
+    for x in &mut q {
+        match x {
+            Ok(x) => items.push(json!([0, [use_name(x.qname()), x.qtype().to_int(), x.qclass().to_int()]])),
+            Err(_) => return json!({"items": items, "end": "err"}),
+        }
+    }
+    let mut sec = match q.next_section() {
+        Ok(s) => s,
+        Err(_) => return json!({"items": items, "end": "err"}),
+    };
+    let mut secno = 1;
+    loop {
+        loop {
+            let pos = sec.pos();
+            let edns = secno == 3 && m.len() >= pos + 3 && m[pos..pos + 3] == [0, 0, 41];
+            match sec.next() {
+                None => break,
+                Some(Err(_)) => return json!({"items": items, "end": "err"}),
+                Some(Ok(rec)) => match old_record_item(&rec) {
+                    Ok(Some(item)) => items.push(json!([if edns { 4 } else { secno }, item])),
+                    Ok(None) => return json!({"items": items, "end": "und"}),
+                    Err(()) => return json!({"items": items, "end": "err"}),
+                },
+            }
+        }
+        match sec.next_section() {
+            Ok(Some(s)) => {
+                sec = s;
+                secno += 1;
+            }
+            Ok(None) => return json!({"items": items, "end": "done"}),
+            Err(_) => return json!({"items": items, "end": "err"}),
+        }
+    }
+}
+
+//------------ new codec -----------------------------------------------------------
+
+fn wire_labels(bytes: &[u8]) -> Value {
+    // uncompressed wire format, root last
+    let mut out = vec![];
+    let mut i = 0;
+    while i < bytes.len() && bytes[i] != 0 {
+        let l = bytes[i] as usize;
+        out.push(json_bytes(&bytes[i + 1..i + 1 + l]));
+        i += 1 + l;
+    }
+    Value::Array(out)
+}
+
+fn rev_labels(bytes: &[u8]) -> Value {
+    // reversed: root first, then the labels from the right
+    let mut out = vec![];
+    let mut i = 1;
+    while i < bytes.len() {
+        let l = bytes[i] as usize;
+        out.push(json_bytes(&bytes[i + 1..i + 1 + l]));
+        i += 1 + l;
+    }
+    out.reverse();
+    Value::Array(out)
+}
+
+fn opt_pairs(bytes: &[u8]) -> Value {
+    let mut out = vec![];
+    let mut i = 0;
+    while i + 4 <= bytes.len() {
+        let code = u16::from_be_bytes([bytes[i], bytes[i + 1]]);
+        let len = u16::from_be_bytes([bytes[i + 2], bytes[i + 3]]) as usize;
+        out.push(json!([code, len]));
+        i += 4 + len;
+    }
+    Value::Array(out)
+}
+
+type NewRecord<'a> = domain::new::base::Record<RevNameBuf, RecordData<'a, NameBuf>>;
+
+fn new_record_item(r: &NewRecord<'_>) -> Option<Value> {
+    let t = r.rtype.code.get();
+    if kind(t) == "opaque" {
+        return None;
+    }
+    let mut names = vec![];
+    let mut opts = json!([]);
+    match &r.rdata {
+        RecordData::Ns(d) => names.push(wire_labels(d.server.as_bytes())),
+        RecordData::CName(d) => names.push(wire_labels(d.name.as_bytes())),
+        RecordData::Ptr(d) => names.push(wire_labels(d.name.as_bytes())),
+        RecordData::Mx(d) => names.push(wire_labels(d.exchange.as_bytes())),
+        RecordData::Soa(d) => {
+            names.push(wire_labels(d.mname.as_bytes()));
+            names.push(wire_labels(d.rname.as_bytes()));
+        }
+        RecordData::Opt(o) => opts = opt_pairs(o.as_bytes()),
+        _ => {}
+    }
+    let ttl = r.ttl.value.get();
+    Some(json!([rev_labels(r.rname.as_bytes()), t, r.rclass.code.get(), (ttl >> 16) as u16,
+                (ttl & 0xFFFF) as u16, names, opts]))
+}
+
+pub fn new_view(m: &[u8], starts: &[usize]) -> Value {
+    let mut names = vec![];
+    let mut qs = vec![];
+    let mut rs = vec![];
+    if m.len() < 12 {
+        return json!({"names": [], "qs": [], "rs": [], "msg": {"items": [], "end": "short"}});
+    }
+    let contents = &m[12..];
+    for &s in starts {
+        let st = s - 12;
+        let a = NameBuf::split_message_bytes(contents, st);
+        let b = RevNameBuf::split_message_bytes(contents, st);
+        names.push(match (a, b) {
+            (Ok((n, rest)), Ok((rn, rest2))) => {
+                assert_eq!(rest, rest2, "NameBuf and RevNameBuf end at different offsets");
+                assert_eq!(wire_labels(n.as_bytes()), rev_labels(rn.as_bytes()), "NameBuf and RevNameBuf differ");
+                let _ = format!("{} {:?}", n, rn);
+                okv(json!([wire_labels(n.as_bytes())]), rest + 12)
+            }
+            (Err(_), Err(_)) => fail(),
+            _ => json!({"ok": "NameBuf and RevNameBuf disagree"}),
+        });
+        qs.push(match domain::new::base::Question::<RevNameBuf>::split_message_bytes(contents, st) {
+            Ok((q, rest)) => okv(json!([rev_labels(q.qname.as_bytes()), q.qtype.code.get(), q.qclass.code.get()]), rest + 12),
+            Err(_) => fail(),
+        });
+        rs.push(match NewRecord::split_message_bytes(contents, st) {
+            Ok((r, rest)) => match new_record_item(&r) {
+                Some(item) => okv(item, rest + 12),
+                None => und(),
+            },
+            Err(_) => {
+                // undecided when the type is opaque to the spec
+                match domain::new::base::Record::<RevNameBuf, &UnparsedRecordData>::split_message_bytes(contents, st) {
+                    Ok((r, _)) if kind(r.rtype.code.get()) == "opaque" => und(),
+                    _ => fail(),
+                }
+            }
+        });
+    }
+    json!({"names": names, "qs": qs, "rs": rs, "msg": new_msg_view(m)})
+}
+
+fn new_msg_view(m: &[u8]) -> Value {
+    let mut p = match MessageParser::new(m) {
+        Ok(p) => p,
+        Err(_) => return json!({"items": [], "end": "short"}),
+    };
+    let contents = &m[12..];
+    let mut items = vec![];
+    loop {
+        let off = p.offset();
+        match p.next() {
+            None => return json!({"items": items, "end": "done"}),
+            Some(Ok(item)) => {
+                let (tag, rec) = match item {
+                    MessageItem::Question(q) => {
+                        items.push(json!([0, [rev_labels(q.qname.as_bytes()), q.qtype.code.get(), q.qclass.code.get()]]));
+                        continue;
+                    }
+                    MessageItem::Answer(r) => (1, r),
+                    MessageItem::Authority(r) => (2, r),
+                    MessageItem::Additional(r) => (3, r),
+                    MessageItem::Edns(e) => {
+                        let ttlhi = (u16::from(e.ext_rcode) << 8) | u16::from(e.version);
+                        let flags = u16::from_be_bytes([e.flags.as_bytes()[0], e.flags.as_bytes()[1]]);
+                        let opt: &domain::new::rdata::Opt = *e.data;
+                        items.push(json!([4, [[], 41, e.max_udp_payload.get(), ttlhi, flags, [], opt_pairs(opt.as_bytes())]]));
+                        continue;
+                    }
+                };
+                match new_record_item(&rec) {
+                    Some(v) => items.push(json!([tag, v])),
+                    None => return json!({"items": items, "end": "und"}),
+                }
+            }
+            Some(Err(_)) => {
+                // an opaque type at the failing offset leaves the verdict open
+                let u = domain::new::base::Record::<RevNameBuf, &UnparsedRecordData>::split_message_bytes(contents, off);
+                let end = match u {
+                    Ok((r, _)) if kind(r.rtype.code.get()) == "opaque" && !items.is_empty() => "und",
+                    _ => "err",
+                };
+                assert!(p.next().is_none(), "new MessageParser not fused after an error");
+                return json!({"items": items, "end": end});
+            }
+        }
+    }
+}
+
+pub fn codec_view(m: &[u8], starts: &[usize]) -> Value {
+    let old = observe(|| old_view(m, starts));
+    let new = observe(|| new_view(m, starts));
+    let old2 = observe(|| old_view(m, starts));
+    let new2 = observe(|| new_view(m, starts));
+    let mut o = json!({"agree": old == new, "old": old, "new": new});
+    if old2 != o["old"] || new2 != o["new"] {
+        o["nonidempotent"] = json!(true);
+    }
+    o
+}
